@@ -450,13 +450,14 @@ func init() {
 		section{"common", tiered(1500, 40000), c08Common},
 		section{"large", tiered(60, 1500), c08Large},
 		section{"hand-built", tiered(1500, 40000), c08Struct},
+		concurrentSection("C08"),
 	)
 	core.Register(&core.Monitor{
 		ID: "C08", Level: "exploration", Plan: plan, Run: run,
 		Rule: "messages (pool names with shared suffixes/escapes; every name-bearing type straddling offset 16384 at each of 80 alignments; all registry types incl. bitmaps, OPT options, SVCB, APL; 300..1100-record messages beyond 16384 octets) x Compress in {false,true}; " +
 			"checks Len()>=len(Pack()), Len(rr)>=len(PackRR), equality for escape-free messages of the 16 common types, no ErrBuf/overflow from Pack/PackBuffer, PackBuffer with buffers of 0, Len-1, Len, Len+1, Len+2, Len+700 octets never refused and in place when buffer > uncompressed Len; messages ending in a zero-octet field (CAA value, URI target, TXT/SPF without strings, NULL); messages beyond 65535 octets with buffers of 65535/65536 octets; " +
 			"records of every type with 1-2 fields set by hand (integers incl. length companions to 0/1/2/max/random, hex upper/lower case, base64 padded/unpadded, base32 either case, text with escapes, addresses of 0/4/16 octets and IPv4 in 16-octet form, string lists): whenever PackRR accepts the value, Len(rr) and Msg.Len() cover it and Msg.Pack succeeds; " +
-			"non-trivial = distinct packed message",
+			"the same operations called from 8 goroutines at once give the results they give alone; non-trivial = distinct packed message",
 		MinObserved: []string{"messages", "exactness_checked", "records", "packbuffer_calls", "messages_over_16384", "boundary_alignments"},
 	})
 }
